@@ -24,12 +24,15 @@ func init() {
 			"large structured graphs with n in {31,32,33,63..66,100,127..130,200,257} (paths, cycles, stars, K_n, K_a,b, grids, tori, hypercubes, ladders, caterpillars, brooms, a long cycle with trees, disjoint unions, block forests with known blocks) as dense, sparse and view, with sampled Distance pairs / ConnectedComponent vertices and closed forms cross-checked against the polynomial oracles; " +
 			"call sequences in one process on graphs with n in {300,511..513,1000,1023..1025,2048,4096} (thorough: also 1026,1500,2047,2049,3000,4095,4097) and seeded sizes 1024..2500 (cycles with a tail, relabelled cycles, cycles with a chord, paths, trees of four shapes, trees plus edges, grids, prisms, Q10/Q11, stars, sparse random graphs, disjoint unions) mixed with graphs of 0..300 vertices: " +
 			"scripted sequences per function f (f twice on the same graph, then on a disconnected / a small / another large graph of the same size / the empty graph and back), seeded closed walks through every ordered pair of the 11 functions (and of the 5 search functions) where the graph of a step is that of the step before or any other of the session, large graphs as dense and as view after each other; every single result of a sequence is judged against adjacency-list oracles (induced counters with maxLength<=4, NumberOfCycles where the count is known by construction). " +
+			"labelling sweeps (the functions visit the vertices in label order, so one graph is handed over under tens to hundreds of labellings built from its structure: sorted by the distance from every vertex, from every block with a cycle, from all cycle vertices, from the leaves and from the cut vertices, near first and far first, ties by degree / base label / seed; one cycle first and the rest by the distance from another cycle; depth-first pre- and post-orders from every vertex; reversed and seeded ones; all n! labellings for n<=7 in thorough): " +
+			"every connected graph with cyclomatic number 0..3 on n<=7 (8) vertices, every pair of connected unicyclic graphs with <=6 (8) and <=8 vertices (all isomorphism classes, counts checked against OEIS A001429) side by side and (every second pair, alternating with the seed; thorough: every pair) joined by a seeded path, every triple with <=5 (6) vertices each, seeded constructions of 2..4 cycles of lengths 3..9 of both parities joined by shared vertices, paths and ears or lying apart, with pendant paths and trees, 11..20 vertices (every eighth one: lengths 3..13, 21..40 vertices, polynomial functions only), checked against their construction, and the named families; Girth on every labelling, the other functions in turn; dense / sparse / views. " +
 			"Every value of Distance (all pairs), Eccentricity, Diameter, Radius, Girth, ConnectedComponent (all v), ConnectedComponents, BiconnectedComponents, NumberOfCycles, NumberOfInducedCycles/Paths (every maxLength in -1..n+1, entries up to the bound) " +
 			"is compared with definition oracles computed on the base graph and carried through the relabelling. non-trivial = n>=4 and m>=2; distinct = (labelled graph, representation)",
 		Assumptions: []string{
 			"oracles (harness code, no library code): BFS distances, components by search, cut vertices by vertex deletion, blocks as classes of edges not separated by any single vertex, girth by edge deletion, cycle / induced cycle / induced path counts by exhaustive path extension; cross-checked against oracle/brute (Floyd-Warshall, cycle enumeration) and closed formulas in the self-check and again on every base graph with n<=8",
 			"library graphs are built by filling the exported fields of DenseGraph / SparseGraph (no constructor under test); the InducedSubgraph and Complement views are first checked to present the intended adjacency (else the case is skipped and counted)",
 			"call sequences: graphs in harness-owned adjacency lists; expected values by one BFS per source, component search, cut vertices and blocks by vertex deletion, girth by edge deletion, induced paths / cycles with at most 4 edges by path extension; compared with the closed forms of each construction before the library is judged and with the oracles of the small workloads in the self-check; a call of the property's functions may not depend on earlier calls in the same process",
+			"labelling sweeps: the expected values are computed once on the base graph by the same oracles and carried through the permutation (equivariance of the oracles is checked in the class workload); the lists of connected unicyclic graphs come from the harness' own class lists (n<=7) and from pendant-vertex extension with an isomorphism test (n=8), and must have the published sizes 1,2,5,13,33,89; girth, cyclomatic number and component count of a constructed cycle net are compared with its construction before the library is judged",
 			"conventions taken from the documentation: Distance -1 without a path; Eccentricity all -1, Diameter and Radius -1 when disconnected (0 for n=0); Girth -1 when acyclic; result index = length for the counters; NumberOfInducedPaths entry 0 = n; entries beyond maxLength are not judged; order of components / blocks / articulation vertices is not judged, blocks must be sorted lists, isolated vertices may or may not be singleton blocks (all or none)",
 		},
 		Run:            run,
@@ -50,6 +53,19 @@ func init() {
 			"seq:repeat_n>=1024:Distance", "seq:repeat_n>=1024:Eccentricity", "seq:repeat_n>=1024:Diameter", "seq:repeat_n>=1024:Radius", "seq:repeat_n>=1024:Girth",
 			"seq:repeat_n>=1024:ConnectedComponent", "seq:repeat_n>=1024:ConnectedComponents", "seq:repeat_n>=1024:BiconnectedComponents",
 			"seq:repeat_n>=1024:NumberOfCycles", "seq:repeat_n>=1024:NumberOfInducedCycles", "seq:repeat_n>=1024:NumberOfInducedPaths",
+			// many labellings of sparse graphs with a few cycles (orders.go)
+			"orders:graphs", "orders:labellings", "orders:graphs_with_50+_labellings", "max:orders:labellings_of_one_graph",
+			"orders:unicyclic_lists_equal_the_published_counts", "orders:unicyclic_pairs", "orders:unicyclic_pairs_joined_by_a_path", "orders:unicyclic_triples", "orders:cycle_nets_checked_against_their_construction", "orders:family_graphs",
+			"orders:graphs:cycles_of_both_parities", "orders:graphs:even_girth_and_a_longer_odd_cycle", "orders:graphs:odd_girth_and_a_longer_even_cycle",
+			"orders:graphs:disconnected", "orders:graphs:acyclic", "orders:graphs:cycles_and_pendant_trees", "orders:graphs:girth>=4",
+			"orders:graphs:cyclomatic_number=1", "orders:graphs:cyclomatic_number=2", "orders:graphs:cyclomatic_number=3", "orders:graphs:cyclomatic_number=4",
+			"orders:kind:reverse", "orders:kind:seeded", "orders:kind:depth-first preorder", "orders:kind:depth-first postorder",
+			"orders:kind:distance from one vertex, near first", "orders:kind:distance from one vertex, far first",
+			"orders:kind:distance from a block with a cycle, near first", "orders:kind:distance from a block with a cycle, far first",
+			"orders:kind:distance from all cycle vertices, far first", "orders:kind:distance from the leaves, far first", "orders:kind:distance from the cut vertices, far first",
+			"orders:kind:one cycle first, then far from another cycle first", "orders:kind:one cycle first, then near another cycle first",
+			"orders:calls:Girth", "orders:calls:Eccentricity", "orders:calls:Diameter", "orders:calls:Radius", "orders:calls:BiconnectedComponents", "orders:calls:ConnectedComponents",
+			"orders:calls:NumberOfCycles", "orders:calls:NumberOfInducedCycles", "orders:calls:NumberOfInducedPaths", "orders:calls:Distance", "orders:calls:ConnectedComponent",
 		},
 	})
 }
@@ -171,7 +187,10 @@ func polynomialPart(g *rg.G, large bool) *want {
 // relabel carries the expected values to h = g.Induced(p) (vertex i of h is
 // vertex p[i] of g): vertex-indexed values are read through p, vertex-valued
 // ones are mapped through the inverse.
-func (w *want) relabel(p []int) *want {
+func (w *want) relabel(p []int) *want { return w.relabelWith(p, true) }
+
+// relabelWith is relabel; the matrix of distances is left out (nil) unless withDist.
+func (w *want) relabelWith(p []int, withDist bool) *want {
 	n := w.n
 	inv := make([]int, n)
 	for i, x := range p {
@@ -195,12 +214,16 @@ func (w *want) relabel(p []int) *want {
 	}
 	v := &want{n: n, connected: w.connected, diam: w.diam, rad: w.rad, girth: w.girth, maxMu: w.maxMu,
 		cycles: w.cycles, indCycles: w.indCycles, indPaths: w.indPaths, indSteps: w.indSteps}
-	v.dist = make([][]int, n)
+	if withDist {
+		v.dist = make([][]int, n)
+	}
 	v.ecc = make([]int, n)
 	for i := 0; i < n; i++ {
-		v.dist[i] = make([]int, n)
-		for j := 0; j < n; j++ {
-			v.dist[i][j] = w.dist[p[i]][p[j]]
+		if withDist {
+			v.dist[i] = make([]int, n)
+			for j := 0; j < n; j++ {
+				v.dist[i][j] = w.dist[p[i]][p[j]]
+			}
 		}
 		v.ecc[i] = w.ecc[p[i]]
 	}
@@ -560,15 +583,7 @@ func (t *gcase) run() {
 		if pi != nil {
 			t.panicked("ConnectedComponents", pi, fmt.Sprint(w.comps))
 		} else {
-			cs, sorted := canonSets(got)
-			if sorted {
-				c.Obs("convention:ConnectedComponents_each_sorted", 1)
-			} else {
-				c.Obs("convention:ConnectedComponents_unsorted", 1)
-			}
-			if fmt.Sprint(cs) != fmt.Sprint(w.comps) {
-				t.wrong("ConnectedComponents", "", fmt.Sprint(got), fmt.Sprint(w.comps)+" (each once, any order)")
-			}
+			t.judgeComponents(got)
 		}
 	}
 	// BiconnectedComponents
@@ -581,38 +596,7 @@ func (t *gcase) run() {
 		if pi != nil {
 			t.panicked("BiconnectedComponents", pi, fmt.Sprintf("blocks %v (+ optionally the isolated vertices %v), articulation %v", w.blocks, w.isolated, w.art))
 		} else {
-			bs, sorted := canonSets(blocks)
-			var withEdge, single [][]int
-			for _, b := range bs {
-				if len(b) == 1 {
-					single = append(single, b)
-				} else {
-					withEdge = append(withEdge, b)
-				}
-			}
-			var isoSets [][]int
-			for _, v := range w.isolated {
-				isoSets = append(isoSets, []int{v})
-			}
-			singlesOK := len(single) == 0 || fmt.Sprint(single) == fmt.Sprint(isoSets)
-			if len(w.isolated) > 0 {
-				if len(single) == 0 {
-					c.Obs("convention:isolated_vertices_not_blocks", 1)
-				} else {
-					c.Obs("convention:isolated_vertices_are_singleton_blocks", 1)
-				}
-			}
-			as := append([]int{}, art...)
-			sort.Ints(as)
-			exp := fmt.Sprintf("blocks %v (+ optionally all of the isolated vertices %v as singletons), each once and sorted; articulation set %v", w.blocks, w.isolated, w.art)
-			switch {
-			case !sorted:
-				t.wrong("BiconnectedComponents", "unsorted-block", fmt.Sprint(blocks), exp)
-			case fmt.Sprint(withEdge) != fmt.Sprint(w.blocks) || !singlesOK:
-				t.wrong("BiconnectedComponents", "blocks", fmt.Sprint(blocks), exp)
-			case !eqInts(as, w.art):
-				t.wrong("BiconnectedComponents", "articulation", fmt.Sprint(art), exp)
-			}
+			t.judgeBlocks(blocks, art)
 		}
 	}
 	// NumberOfCycles (editable representations only)
@@ -705,6 +689,57 @@ func (t *gcase) run() {
 	if msg := presents(c, ck+"unchanged", lg, t.h); msg != "" {
 		c.Obs("input_changed_by_calls", 1)
 		c.Inconclusive(fmt.Sprintf("graph %s (%s) no longer presents its adjacency after the calls: %s", t.g6, t.rep, msg))
+	}
+}
+
+// judgeComponents judges a result of ConnectedComponents (each component once, any order).
+func (t *gcase) judgeComponents(got [][]int) {
+	c, w := t.c, t.w
+	cs, sorted := canonSets(got)
+	if sorted {
+		c.Obs("convention:ConnectedComponents_each_sorted", 1)
+	} else {
+		c.Obs("convention:ConnectedComponents_unsorted", 1)
+	}
+	if fmt.Sprint(cs) != fmt.Sprint(w.comps) {
+		t.wrong("ConnectedComponents", "", fmt.Sprint(got), fmt.Sprint(w.comps)+" (each once, any order)")
+	}
+}
+
+// judgeBlocks judges a result of BiconnectedComponents.
+func (t *gcase) judgeBlocks(blocks [][]int, art []int) {
+	c, w := t.c, t.w
+	bs, sorted := canonSets(blocks)
+	var withEdge, single [][]int
+	for _, b := range bs {
+		if len(b) == 1 {
+			single = append(single, b)
+		} else {
+			withEdge = append(withEdge, b)
+		}
+	}
+	var isoSets [][]int
+	for _, v := range w.isolated {
+		isoSets = append(isoSets, []int{v})
+	}
+	singlesOK := len(single) == 0 || fmt.Sprint(single) == fmt.Sprint(isoSets)
+	if len(w.isolated) > 0 {
+		if len(single) == 0 {
+			c.Obs("convention:isolated_vertices_not_blocks", 1)
+		} else {
+			c.Obs("convention:isolated_vertices_are_singleton_blocks", 1)
+		}
+	}
+	as := append([]int{}, art...)
+	sort.Ints(as)
+	exp := fmt.Sprintf("blocks %v (+ optionally all of the isolated vertices %v as singletons), each once and sorted; articulation set %v", w.blocks, w.isolated, w.art)
+	switch {
+	case !sorted:
+		t.wrong("BiconnectedComponents", "unsorted-block", fmt.Sprint(blocks), exp)
+	case fmt.Sprint(withEdge) != fmt.Sprint(w.blocks) || !singlesOK:
+		t.wrong("BiconnectedComponents", "blocks", fmt.Sprint(blocks), exp)
+	case !eqInts(as, w.art):
+		t.wrong("BiconnectedComponents", "articulation", fmt.Sprint(art), exp)
 	}
 }
 
@@ -1082,10 +1117,16 @@ func run(c *engine.Ctx) {
 		})
 	}
 
-	// 6. large structured graphs around the sizes 32, 64, 128, 256
+	// 6. many labellings of sparse graphs with a few cycles (orders.go).  These units come before the ones with
+	// large graphs: their library calls follow each other without a pause, and the memory watchdog of the engine looks
+	// at the resident size of the process during library calls - memory that a unit with graphs of thousands of
+	// vertices has just released, but the runtime has not yet returned, must not be charged to them.
+	ordersWorkload(c)
+
+	// 7. large structured graphs around the sizes 32, 64, 128, 256
 	largeWorkload(c)
 
-	// 7. sequences of calls in one process on graphs with hundreds to thousands of vertices
+	// 8. sequences of calls in one process on graphs with hundreds to thousands of vertices
 	hugeWorkload(c)
 }
 
